@@ -6,7 +6,7 @@
    model takes them from Gen/Consts.v (reflected from the live Server class), so
    a changed constant breaks these theorems. *)
 From Coq Require Import QArith Qminmax.
-From LS Require Import Model.Keepalive Proofs.KeepaliveProofs.
+From LS Require Import Model.Keepalive Proofs.KeepaliveProofs Model.Init Proofs.InitProofs.
 Local Open Scope Q_scope.
 
 (* with no hint the configured value stands (1 s if none was configured) *)
@@ -40,6 +40,12 @@ Theorem c12_bound : forall c h, 0 < h ->
   0 < ka_after c (Some h) /\ ka_after c (Some h) <= Qmax (h / 1000) 1.
 Proof. exact ka_bound. Qed.
 
+(* a hint the server cannot read as a number (Props/C11.v c11_malformed_hint_discarded) is no hint: the interval in
+   force after the init request is the one of c12_no_hint *)
+Theorem c12_malformed_hint_as_absent : forall configured r,
+  ir_hint r = HMalformed -> ka_after_init configured r = Some (ka_after configured None).
+Proof. exact malformed_hint_as_absent. Qed.
+
 (* non-vacuity: keepalives configured off, hint 500 ms -> 1 s *)
 Example c12_example : ka_after (Some 0) (Some 500) == 1.
 Proof. exact ka_example_off_hint. Qed.
@@ -54,3 +60,4 @@ Print Assumptions c12_nonpositive.
 Print Assumptions c12_positive.
 Print Assumptions c12_bound.
 Print Assumptions c12_legacy_refuted.
+Print Assumptions c12_malformed_hint_as_absent.
